@@ -2,7 +2,9 @@ package c17
 
 import (
 	"fmt"
+	"os"
 	"sort"
+	"strconv"
 	"strings"
 
 	"pgregory.net/rapid"
@@ -23,9 +25,33 @@ var triggerRates = map[string]int{
 	"tmpl-shadow":     8,
 	"redefine":        5,
 	"defname":         6,
+	// Constructs inside the property's domain for which the UNCHANGED minifier
+	// changes program meaning (reported to the lead, not yet recorded): excluded
+	// by construction.  Their decision points are still drawn and counted
+	// (feat skip/<name>); C17_TRIG="export-list=40,nested-def=100" switches them
+	// on to confirm a defect or, later, a repair.
+	"export-list":       0, // (export '(a b)) and (export "a")
+	"export-other-file": 0, // (export 'f) in another file than (defun f ...)
+	"headname":          0, // a user function called test / test-let (heads the analyzer special-cases)
+	"nested-def":        0, // defun inside a top-level let (closure idiom) or progn
 }
 
-var triggerOrder = []string{"xname", "dotimes-result", "qqdata", "macrolet", "tmpl-shadow", "redefine", "samefile-import", "defname"}
+var triggerOrder = []string{"xname", "dotimes-result", "qqdata", "macrolet", "tmpl-shadow", "redefine", "samefile-import", "defname",
+	"export-list", "export-other-file", "headname", "nested-def"}
+
+func init() {
+	// C17_TRIG=name=rate,... overrides trigger rates (configuration, not a
+	// source of randomness: a case is still a pure function of the drawn bits)
+	for _, kv := range strings.Split(os.Getenv("C17_TRIG"), ",") {
+		if name, rate, ok := strings.Cut(kv, "="); ok {
+			if n, err := strconv.Atoi(rate); err == nil {
+				if _, known := triggerRates[name]; known {
+					triggerRates[name] = n
+				}
+			}
+		}
+	}
+}
 
 type planned struct {
 	b      *bind
@@ -39,12 +65,27 @@ func (g *gen) planGlobal(kind string) *bind {
 		pool = fnPool
 	case "gset":
 		pool = gvarPool
+	case "deftype":
+		pool = typePool
 	default:
 		pool = macroPool
 	}
 	var name string
 	for tries := 0; tries < 8; tries++ {
 		name = g.fixName(g.pick(pool))
+		if kind == "defun" && g.may("headname", 12) {
+			name = []string{"test", "test-let"}[g.intn(2)]
+			g.feat("head-special-cased-name")
+		}
+		homonym := false
+		if hs := g.homonyms(kind); len(hs) > 0 && g.chance(35) {
+			// the same bare name as a global of ANOTHER package of the session
+			// (of any kind, exported or private; packages of this file twice as
+			// likely): everything that resolves a bare name without its package
+			// now has a wrong candidate
+			name = hs[g.intn(len(hs))]
+			homonym = true
+		}
 		if kind == "macro" && strings.HasPrefix(name, "def") {
 			if !g.trig["defname"] {
 				continue
@@ -70,6 +111,9 @@ func (g *gen) planGlobal(kind string) *bind {
 			continue
 		}
 		if old == nil {
+			if homonym {
+				g.feat("homonym")
+			}
 			break
 		}
 		if g.trig["redefine"] && old.kind == kind && kind == "defun" && old.ready && g.chance(50) {
@@ -88,6 +132,54 @@ func (g *gen) planGlobal(kind string) *bind {
 	}
 	b.isMacro = kind == "macro"
 	return b
+}
+
+// homonyms lists the names other packages of the session define; names of
+// packages that have a section in the current file are listed twice.
+func (g *gen) homonyms(kind string) []string {
+	var out []string
+	add := func(q *pkg) {
+		var ns []string
+		for n, b := range q.own {
+			if strings.HasPrefix(n, "def") || n == "test" || n == "test-let" {
+				continue // names with a trigger of their own
+			}
+			if g.cur.own[n] != nil || g.cur.imports[n] != nil || !b.ready {
+				continue
+			}
+			ns = append(ns, n)
+		}
+		sort.Strings(ns)
+		out = append(out, ns...)
+	}
+	for _, q := range g.pkgList {
+		if q != g.cur {
+			add(q)
+		}
+	}
+	for _, q := range g.inFile {
+		if q != g.cur {
+			add(q)
+		}
+	}
+	return out
+}
+
+// lateExportConflict: package p is about to export name, but a package that
+// has ALREADY executed (use-package p) sees another binding of that name.  At
+// run time use-package copies the exports of that moment, so the importer
+// keeps its binding; an analysis that reads "use-package p" as "everything p
+// exports anywhere in the session" resolves the name to p's.  The meaning of
+// the name then depends on the order in which the forms run (the two-package
+// form of this is the recorded finding misbound-ref/imported-conflict), so the
+// generator does not let exports grow under an importer's feet.
+func (g *gen) lateExportConflict(p *pkg, name string) bool {
+	for _, q := range g.pkgList {
+		if q != p && q.uses[p.name] && (q.own[name] != nil || q.imports[name] != nil && q.imports[name].pkg != p.name) {
+			return true
+		}
+	}
+	return false
 }
 
 func (g *gen) define(b *bind) {
@@ -235,7 +327,56 @@ func (g *gen) paramListKeys(s *sig) []*bind {
 	return ps
 }
 
+// deftype writes (deftype name (params) body): the constructor computes the
+// user data of (new name args...), here always a number.
+func (g *gen) deftype(b *bind) {
+	g.feat("deftype")
+	s := &sig{ret: tNum}
+	for i, n := 0, g.intn(3); i < n; i++ {
+		s.req = append(s.req, tNum)
+	}
+	b.sig = s
+	g.e.head("deftype")
+	g.bindOcc(b)
+	ps := g.paramList(s)
+	g.fnBody(3, ps, tNum)
+	g.e.close()
+	g.e.nl()
+}
+
+// defconst writes (defconst name value "doc"...), i.e. a top-level set plus an
+// export.  The value is never a bare (f a ...) list: with a docstring the form
+// has four cells, and the analyzer's def-prefix heuristic would take such a
+// list for a formals list -- the root cause already recorded as
+// misparsed/def-macro-arg.
+func (g *gen) defconstForm(b *bind) {
+	g.feat("defconst")
+	b.exported = true
+	g.e.head("defconst")
+	g.bindOcc(b)
+	if g.chance(65) {
+		b.ty = tNum
+		b.mut = true
+		g.e.head("+")
+		g.e.lit(g.intLit())
+		g.num(2)
+		g.e.close()
+	} else {
+		b.ty = tData
+		g.quotedList("quote", 1, true)
+	}
+	for i, n := 0, g.intn(3); i < n; i++ {
+		g.e.lit([]string{`"doc"`, `""`, `"mentions helper and x1"`}[g.intn(3)])
+	}
+	g.e.close()
+	g.e.nl()
+}
+
 func (g *gen) gset(b *bind) {
+	if b.defconst {
+		g.defconstForm(b)
+		return
+	}
 	switch k := g.intn(10); {
 	case k < 6:
 		b.ty = tNum
@@ -297,6 +438,8 @@ func (g *gen) driver(b *bind) {
 		} else {
 			g.e.lit("0")
 		}
+	case b.kind == "deftype":
+		g.newOf(c, 2)
 	case b.kind == "defun" && b.sig.ret.K == 'f':
 		g.e.head("funcall")
 		g.e.open()
@@ -331,13 +474,26 @@ func (g *gen) comment() {
 	}
 }
 
-// section writes the forms of one package section of a file.
-func (g *gen) section(p *pkg, first bool, earlier []*pkg) {
+// pkgArg writes the argument of in-package / use-package: a quoted symbol or,
+// a quarter of the time, a string.
+func (g *gen) pkgArg(name string) {
+	if g.chance(25) {
+		g.feat("package-name-string")
+		g.e.lit(strconv.Quote(name))
+		return
+	}
+	g.e.quote()
+	g.e.sym(Occ{N: name, R: "pkg"})
+}
+
+// section writes the forms of one package section of a file.  A consumer
+// section belongs to the session's "main" package: it imports most of what the
+// other packages export and defines little itself.
+func (g *gen) section(p *pkg, first bool, earlier []*pkg, consumer bool) {
 	g.cur = p
 	if p.name != "user" || !first {
 		g.e.head("in-package")
-		g.e.quote()
-		g.e.sym(Occ{N: p.name, R: "pkg"})
+		g.pkgArg(p.name)
 		g.e.close()
 		g.e.nl()
 	}
@@ -355,8 +511,13 @@ func (g *gen) section(p *pkg, first bool, earlier []*pkg) {
 			}
 		}
 	}
+	usePct := 60
+	if consumer {
+		usePct = 90
+		g.feat("consumer-section")
+	}
 	for _, q := range earlier {
-		if twin != nil || q == p || len(q.exports) == 0 || !g.chance(60) {
+		if twin != nil || q == p || len(q.exports) == 0 || !g.chance(usePct) {
 			continue
 		}
 		okAll := true
@@ -369,9 +530,9 @@ func (g *gen) section(p *pkg, first bool, earlier []*pkg) {
 			continue
 		}
 		g.feat("use-package")
+		p.uses[q.name] = true
 		g.e.head("use-package")
-		g.e.quote()
-		g.e.sym(Occ{N: q.name, R: "pkg"})
+		g.pkgArg(q.name)
 		g.e.close()
 		g.e.nl()
 		for _, b := range q.exports {
@@ -383,8 +544,32 @@ func (g *gen) section(p *pkg, first bool, earlier []*pkg) {
 			p.impFile[b.name] = g.fileIdx
 		}
 	}
+	// a name this package defined in an EARLIER file is exported here
+	var lateExports []*bind
+	if twin == nil {
+		var cs []*bind
+		for _, b := range g.globals {
+			if b.pkg == p.name && b.file < g.fileIdx && !b.exported && b.ready && p.own[b.name] == b && (b.kind == "defun" || b.kind == "gset" || b.kind == "deftype") {
+				cs = append(cs, b)
+			}
+		}
+		if len(cs) > 0 && g.may("export-other-file", 40) && !g.lateExportConflict(p, cs[0].name) {
+			b := cs[0]
+			g.feat("export-in-other-file")
+			g.e.head("export")
+			g.e.quote()
+			g.e.sym(Occ{N: b.name, R: "ref", B: b.id, K: b.kind, C: "export-form"})
+			g.e.close()
+			g.e.nl()
+			b.exported = true
+			lateExports = append(lateExports, b)
+		}
+	}
 	// plan
 	n := 1 + g.intn(4)
+	if consumer {
+		n = 1 + g.intn(2)
+	}
 	var plan []planned
 	if twin != nil {
 		g.feat("twin-file")
@@ -393,11 +578,13 @@ func (g *gen) section(p *pkg, first bool, earlier []*pkg) {
 	}
 	for i := 0; i < n; i++ {
 		kind := "defun"
-		switch k := g.intn(10); {
-		case k < 2:
+		switch k := g.intn(100); {
+		case k < 18:
 			kind = "gset"
-		case k < 4:
+		case k < 36:
 			kind = "macro"
+		case k < 48:
+			kind = "deftype"
 		}
 		b := g.planGlobal(kind)
 		dup := false
@@ -407,7 +594,17 @@ func (g *gen) section(p *pkg, first bool, earlier []*pkg) {
 		if dup {
 			continue
 		}
-		plan = append(plan, planned{b, p.name != "user" && g.chance(45) || p.name == "user" && g.chance(10)})
+		export := p.name != "user" && g.chance(45) || p.name == "user" && g.chance(10)
+		dc := kind == "gset" && g.cur.own[b.name] == nil && g.chance(25)
+		if (export || dc) && g.lateExportConflict(p, b.name) {
+			g.feat("skip/export-after-use-conflict")
+			export, dc = false, false
+		}
+		if dc {
+			b.defconst = true
+			export = false
+		}
+		plan = append(plan, planned{b, export})
 	}
 	exportAt := g.intn(len(plan) + 1)
 	if twin != nil && exportAt == 0 {
@@ -424,14 +621,42 @@ func (g *gen) section(p *pkg, first bool, earlier []*pkg) {
 			return
 		}
 		g.feat("export")
-		g.e.head("export")
+		// one form, or the names spread over two forms
+		groups := [][]*bind{ex}
+		if len(ex) > 1 && g.chance(30) {
+			g.feat("export-two-forms")
+			k := 1 + g.intn(len(ex)-1)
+			groups = [][]*bind{ex[:k], ex[k:]}
+		}
+		for _, grp := range groups {
+			g.e.head("export")
+			switch {
+			case g.may("export-list", 30):
+				// (export '(a b)): the builtin walks nested lists of names
+				g.feat("export-quoted-list")
+				g.quoteMarkOpen()
+				for _, b := range grp {
+					g.e.sym(Occ{N: b.name, R: "ref", B: b.id, K: b.kind, C: "export-form"})
+				}
+				g.e.close()
+			case g.may("export-list", 15):
+				// (export "a" "b"): names given as strings
+				g.feat("export-string")
+				for _, b := range grp {
+					g.e.lit(strconv.Quote(b.name))
+				}
+			default:
+				for _, b := range grp {
+					g.e.quote()
+					g.e.sym(Occ{N: b.name, R: "ref", B: b.id, K: b.kind, C: "export-form"})
+				}
+			}
+			g.e.close()
+			g.e.nl()
+		}
 		for _, b := range ex {
-			g.e.quote()
-			g.e.sym(Occ{N: b.name, R: "ref", B: b.id, K: b.kind, C: "export-form"})
 			b.exported = true
 		}
-		g.e.close()
-		g.e.nl()
 	}
 	var driven = map[*bind]bool{}
 	for i, pl := range plan {
@@ -444,8 +669,33 @@ func (g *gen) section(p *pkg, first bool, earlier []*pkg) {
 		b := pl.b
 		if first && i == 0 {
 			g.lead = &leadInfo{lines: strings.Count(g.e.b.String(), "\n"), kind: b.kind, name: b.name, pkg: p.name}
-			if pl.export || g.excl[b.name] {
+			if pl.export || g.excl[b.name] || b.defconst {
 				g.lead = nil // preserved names cannot collide
+			}
+		}
+		// a definition wrapped in another top-level form: the closure idiom
+		// (let ((state 0)) (defun next () ...)) or a plain progn.  Neither is a
+		// function body, so the defun still makes a package-level binding.
+		wrapped := false
+		if b.kind == "defun" && !(twin != nil && i == 0) && !(first && i == 0) && g.may("nested-def", 30) {
+			wrapped = true
+			g.feat("nested-def")
+			if g.chance(60) {
+				b.nested = "let"
+				cv := g.newLocal(g.binderName(localPool), "let", tNum)
+				g.e.head("let")
+				g.e.open()
+				g.e.open()
+				g.bindOcc(cv)
+				g.e.lit(g.intLit())
+				g.e.close()
+				g.e.close()
+				g.push()
+				g.add(cv)
+			} else {
+				b.nested = "progn"
+				g.e.head("progn")
+				g.push()
 			}
 		}
 		switch b.kind {
@@ -453,8 +703,15 @@ func (g *gen) section(p *pkg, first bool, earlier []*pkg) {
 			g.defun(b)
 		case "gset":
 			g.gset(b)
+		case "deftype":
+			g.deftype(b)
 		default:
 			g.defmacro(b)
+			g.e.nl()
+		}
+		if wrapped {
+			g.pop()
+			g.e.close()
 			g.e.nl()
 		}
 		g.define(b)
@@ -480,13 +737,14 @@ func (g *gen) section(p *pkg, first bool, earlier []*pkg) {
 		writeExport()
 	}
 	for _, pl := range plan {
-		if pl.export {
+		if pl.export || pl.b.defconst {
 			p.exports = append(p.exports, pl.b)
 		}
 		if !driven[pl.b] && p.own[pl.b.name] == pl.b {
 			g.driver(pl.b)
 		}
 	}
+	p.exports = append(p.exports, lateExports...)
 }
 
 func (g *gen) finalExpr() {
@@ -580,7 +838,14 @@ func genCase() *rapid.Generator[Case] {
 			}
 		}
 		// packages
-		npk := 1 + g.intn(3)
+		// one package 20 %, two 35 %, three 45 %
+		npk := 3
+		switch k := g.intn(100); {
+		case k < 20:
+			npk = 1
+		case k < 55:
+			npk = 2
+		}
 		var pks []*pkg
 		names := []string{"user"}
 		names = append(names, pkgPool...)
@@ -594,10 +859,15 @@ func genCase() *rapid.Generator[Case] {
 			if g.pkgs[name] != nil {
 				continue
 			}
-			p := &pkg{name: name, own: map[string]*bind{}, imports: map[string]*bind{}, impFile: map[string]int{}, impConflict: map[string]bool{}}
+			p := &pkg{name: name, own: map[string]*bind{}, imports: map[string]*bind{}, impFile: map[string]int{}, impConflict: map[string]bool{}, uses: map[string]bool{}}
 			g.pkgs[name] = p
 			pks = append(pks, p)
+			g.pkgList = append(g.pkgList, p)
 		}
+		// the consumer package: sections of it are appended to some files
+		mainPkg := &pkg{name: "main", own: map[string]*bind{}, imports: map[string]*bind{}, impFile: map[string]int{}, impConflict: map[string]bool{}, uses: map[string]bool{}}
+		g.pkgs["main"] = mainPkg
+		g.pkgList = append(g.pkgList, mainPkg)
 		nfiles := 1 + g.intn(3)
 		var c Case
 		var loaded []*pkg // packages with a completed section in an earlier file
@@ -628,14 +898,25 @@ func genCase() *rapid.Generator[Case] {
 			usedPath[path] = true
 			curBase := path[strings.LastIndex(path, "/")+1:]
 			g.budget = 60 + g.intn(60)
+			// one package section per file 50 %, two 30 %, three 20 % (as far
+			// as there are packages)
 			nsec := 1
-			if g.chance(30) {
+			switch k := g.intn(100); {
+			case k < 50:
+			case k < 80:
 				nsec = 2
+			default:
+				nsec = 3
 			}
 			var inFile []*pkg
+			g.inFile = nil
 			for s := 0; s < nsec; s++ {
 				p := pks[g.intn(len(pks))]
-				if s > 0 && p == inFile[0] {
+				again := false
+				for _, q := range inFile {
+					again = again || q == p
+				}
+				if again {
 					continue
 				}
 				earlier := loaded
@@ -652,8 +933,21 @@ func genCase() *rapid.Generator[Case] {
 					}
 					g.twin = twin
 				}
-				g.section(p, s == 0, earlier)
+				g.section(p, s == 0, earlier, false)
 				inFile = append(inFile, p)
+				g.inFile = inFile
+				if len(inFile) > 1 {
+					g.feat(fmt.Sprintf("sections-in-file/%d", len(inFile)))
+				}
+			}
+			if g.chance(30) {
+				earlier := append(append([]*pkg{}, loaded...), inFile...)
+				if !g.trig["samefile-import"] {
+					earlier = loaded
+				}
+				g.section(mainPkg, false, earlier, true)
+				inFile = append(inFile, mainPkg)
+				g.inFile = inFile
 			}
 			g.finalExpr()
 			for _, p := range inFile {
